@@ -69,8 +69,12 @@ def check_gen_rsa(case, acc):
             state["calls"] += 1
             second = state["calls"] % 2 == 0
             if second and state["p"] is not None and kw.get("exact_bits") == state["pbits"]:
-                pb = state["p"].to_bytes((state["pbits"] + 7) // 8, "big")
-                kw = dict(kw, randfunc=_Chain(pb, kw["randfunc"]))     # first candidate for q is p itself
+                # the first candidates offered for q are the prime following p and p itself: both must be
+                # turned down by the |p - q| > 2^(bits/2 - 100) filter
+                nb = (state["pbits"] + 7) // 8
+                near = nt.next_prime(state["p"])
+                pb = (near.to_bytes(nb, "big") if near.bit_length() == state["pbits"] else b"") + state["p"].to_bytes(nb, "big")
+                kw = dict(kw, randfunc=_Chain(pb, kw["randfunc"]))
                 state["offered"] += 1
             r = orig(**kw)
             if not second:
@@ -82,8 +86,10 @@ def check_gen_rsa(case, acc):
     finally:
         RSA.generate_probable_prime = orig
     pre = "RSA.generate(%d, e=%d) on tape %r%s%s" % (bits, e, label, " with prefix " + short(case["prefix"]) if case.get("prefix") else "",
-                                                      " (first candidate offered for q is p)" if case.get("inject") else "")
+                                                      " (first candidates offered for q: next_prime(p), p)" if case.get("inject") else "")
     legal = bits >= 1024 and e >= 3 and e % 2 == 1
+    if case.get("inject") and state["offered"]:
+        acc.count("gen_rsa_injected")
     if st == "hang":
         _viol(acc, "rsa", "hang", pre + ": no key after %.0f s of CPU time" % GEN_BUDGET, case)
         return "hang"
@@ -95,8 +101,6 @@ def check_gen_rsa(case, acc):
         _viol(acc, "rsa", type(val).__name__, pre + ": raised %s: %s at %s" % (type(val).__name__, val, exc_site(val)), case)
         return type(val).__name__
     key = val
-    if case.get("inject") and state["offered"]:
-        acc.count("gen_rsa_injected")
     if not legal:
         _viol(acc, "rsa", "invalid-parameter-accepted", pre + ": returned a key for parameters that cannot give a valid key", case)
         return "key!"
